@@ -2,7 +2,7 @@
 from __future__ import annotations
 
 from worlds.engine_common import simulate
-from worlds.policies import ref_wait_exact, ref_wait_lower_bound
+from worlds.policies import ref_wait_exact, ref_wait_lower_bound, ref_wait_range
 from worlds.retry_world import attempts_of, deliveries, gen_retry_spec, wait_kind
 
 ID = "C06"
@@ -57,7 +57,11 @@ def check(world, spec, outcome) -> None:
             gap = (rt - prev["t1"]) if (rt is not None and prev["t1"] - 1e-9 <= rt <= cur["t0"] + 1e-9) else start_gap
             lb = ref_wait_lower_bound(w, k)
             nxt = ref_wait_exact(w, k + 1)
-            index = "k+1" if (nxt is not None and abs(gap - nxt) <= 1e-9) else "other"
+            nrange = ref_wait_range(w, k + 1)
+            # root cause attribute: the delay is the one documented for the NEXT retry (exactly, or inside its documented range
+            # when that link has a bounded random term)
+            index = "k+1" if ((nxt is not None and abs(gap - nxt) <= 1e-9) or
+                              (nxt is None and nrange is not None and nrange[0] - 1e-9 <= gap <= nrange[1] + 1e-9)) else "other"
             if gap < lb - 1e-9:
                 world.violate("C06.too-early", f"uid {uid}: retry {k} started {gap}s after failure {k}; {w} documents >= {lb}s", cur["seq"],
                               strategy=wk, index=index)
